@@ -90,6 +90,11 @@ def split_check(ev, what, key, rp, ry, rn, nt_hint, query):
         bad = "yields a stack that is not an (unchanged) input stack, or yields one twice: %r" % (extra[:2],)
     elif not errs and both != p:
         bad = "an input stack is yielded by neither the positive nor the negative form: %r" % (list((p - both).elements())[:2],)
+    elif errs and what == "?word/!word" and len(ry["res"]) + len(rn["res"]) + min(ry["stderr"].count(b"Error"), rn["stderr"].count(b"Error")) > len(rp["res"]):
+        # a bare assertion word looks at each stack once and prints at most one diagnostic for it: a stack for which
+        # both forms print one is a stack on which X reports an error, and then neither ?X nor !X holds
+        bad = "%d + %d stacks pass ?X / !X although X reported an error on %d of the %d" % (
+            len(ry["res"]), len(rn["res"]), min(ry["stderr"].count(b"Error"), rn["stderr"].count(b"Error")), len(rp["res"]))
     elif y & n and not errs:
         # the same stack object in both halves is only possible if P yields it more than once
         dup = [k for k in (y & n) if y[k] + n[k] > p[k]]
@@ -294,7 +299,9 @@ def work_words(task):
                     "(0x20 0x30 aset 0x40 0x50 aset add, 0x22 0x24 aset, 0x100 0x101 aset 3 add 8 add, 0 0 aset)",
                     "(0 0x25 aset, 0x10 0x20 aset 0x40 0x50 aset add, 0 0 aset) (0x10, 0x30, 0x45, 0)",
                     "entry (|D| D D child)", "entry (|D| D attribute (pos < 2) D attribute (pos < 2))", "entry (|D| D D attribute (pos < 2))",
-                    "entry address (pos < 6) (|A| A A 4 add, A 0 0 aset, 0x10000 0x10004 aset A)"]
+                    "entry address (pos < 6) (|A| A A 4 add, A 0 0 aset, 0x10000 0x10004 aset A)",
+                    # operands on which the word itself fails: patterns that are not regular expressions
+                    "\"abc\" (\"(\", \"[\", \"a{2,1}\", \"b\", \"*\", \"abc\")", "(\"(\", \"x\") (\"(\", \"\\\\\")"]
         base = {}
         for P in prefixes:
             r = run(drv, P, tok)
